@@ -54,6 +54,26 @@ class Observer:
                                 f"after '{kcorr.decode_line(line)[:100]}': {b}",
                                 {"violation": b, "requests": [kcorr.decode_line(x) for x in run.lines][-15:],
                                  "protocol_lines": list(run.lines)}))
+        # open hold blocks: accepted hold/release requests of a step count while it stays RUNNING (a recycle of the
+        # running step must not close its block)
+        holds = getattr(self, "holds", {})
+        if op in ("hold", "release"):
+            label = common_unhex(line.split(" ")[2].split(":", 1)[1]) if ":" in line.split(" ")[2] else None
+            if label is not None:
+                holds[label] = max(0, holds.get(label, 0) + (1 if op == "hold" else -1))
+        for label in list(holds):
+            if label not in self.running:
+                holds.pop(label)
+        self.holds = holds
+        by_label = {n[1]: i for i, n in sn.nodes.items() if n[0] == "step"}
+        for label, want in holds.items():
+            i = by_label.get(label)
+            if i is not None and i in sn.steps and sn.steps[i]["_holding"] < want:
+                ctx.finding(Finding(PID, "hold-lost:running-step-recycled" if op == "define" else "hold-lost",
+                                    f"after '{kcorr.decode_line(line)[:100]}' the RUNNING step {label} has {want} open hold "
+                                    f"block(s) but _holding = {sn.steps[i]['_holding']}: the steps it holds back can start",
+                                    {"requests": [kcorr.decode_line(x) for x in run.lines][-15:],
+                                     "protocol_lines": list(run.lines)}))
         if op == "define" and ans.startswith("ok"):
             # the stored requirement of a step is the one of its latest accepted definition
             t = line.split(" ")
@@ -252,7 +272,7 @@ async def search(ctx):
     import jobloopcorr
 
     await jobloopcorr.search(ctx, PID)
-    await _ck.run_scenarios(ctx, lambda ctx, run_: Observer(ctx, run_), ["resource_race", "hold_recycle", "shrink_resources"])
+    await _ck.run_scenarios(ctx, lambda ctx, run_: Observer(ctx, run_), ["resource_race", "hold_recycle", "shrink_resources", "hold_running_recycled"])
     import asyncio
     import contextlib
 
